@@ -348,8 +348,12 @@ def check_observed(ctx, spec, obj, tol, where):
         want = w[..., 1:] / w[..., :1]
         d1 = np.abs(got - want).max(axis=(-1, -2))
         d2 = np.abs(got - want[..., ::-1, :]).max(axis=(-1, -2))
+        # (same conditioning as in check_object: very short segments extrapolate)
+        Kp_ = Pr[..., 1:] / Pr[..., :1]
+        amp_ = np.maximum(1.0, 1e-7 / np.maximum(np.sum((Kp_[..., 0, :] - Kp_[..., 1, :]) ** 2,
+                                                        axis=-1), 1e-300))
         ctx.small("ideal_endpoint_coords() are the ideal points of the current line (%s)" %
-                  where, np.minimum(d1, d2), max(tol, 1e-7) * 30)
+                  where, np.minimum(d1, d2) / amp_, max(tol, 1e-7) * 30)
         ep = np.asarray(obj.get_endpoints().proj_data)
         ctx.close("get_endpoints() returns the current endpoints (%s)" % where, ep, P, rtol=0,
                   atol=0)
